@@ -655,9 +655,12 @@ fn plan(tier: Tier, sources: &[corpus::Source], stats: &corpus::CorpusStats) -> 
             .map(|(id, text)| MutSpec { id: id.clone(), text: text.clone(), cuts: vec![text.len()], positions: vec![] })
             .collect();
         planned_cases += specs.len() as u64;
-        mut_units.push(Unit {
+        // Few and cheap, and each shape is a kind of input nothing else spells: they go right
+        // after the ladders, so that a wall-clock budget used up on a loaded machine never
+        // drops them (it drops bulk token strings / corpus mutants, and says so).
+        units.push(Unit {
             job: Job::Mut { alphabet: alpha_name.into(), specs },
-            group: "corpus",
+            group: "shape",
             est_cost: 200.0 * 400.0,
         });
     }
@@ -759,7 +762,7 @@ pub fn run(tier: Tier) -> Result<Report, String> {
     // VERIF_SEED only rotates the order in which units of a group are started.
     let seed = crate::infra::seed().unsigned_abs() as usize;
     if seed != 0 {
-        for g in ["ladder", "tokens", "corpus", "tokens5"] {
+        for g in ["ladder", "shape", "tokens", "corpus", "tokens5"] {
             let idxs: Vec<usize> = (0..plan.units.len()).filter(|i| plan.units[*i].group == g).collect();
             if idxs.len() > 1 {
                 let (lo, hi) = (idxs[0], idxs[idxs.len() - 1] + 1);
